@@ -270,24 +270,50 @@ def compare(a, cop, b):
     raise Unsupported(f"cop {cop}")
 
 
-def eval_cond(c, env):
+def _eval3(c, env):
+    """Kleene three-valued evaluation: True / False / an Unsupported instance (value depends on something the
+    oracle cannot compare, e.g. an undefined auxiliary); 'false and unknown' is false, 'true or unknown' is true"""
     k = c[0]
     if k == "true":
         return True
     if k == "false":
         return False
     if k == "atom":
-        return compare(eval_expr(c[1], env), c[2], eval_expr(c[3], env))
+        try:
+            return compare(eval_expr(c[1], env), c[2], eval_expr(c[3], env))
+        except Unsupported as e:
+            return e
     if k == "not":
-        return not eval_cond(c[1], env)
+        r = _eval3(c[1], env)
+        return r if isinstance(r, Unsupported) else (not r)
     if k == "and":
-        return eval_cond(c[1], env) and eval_cond(c[2], env)
+        a = _eval3(c[1], env)
+        if a is False:
+            return False
+        b = _eval3(c[2], env)
+        if b is False:
+            return False
+        if isinstance(a, Unsupported):
+            return a
+        return b
     if k == "or":
-        return eval_cond(c[1], env) or eval_cond(c[2], env)
-    if k == "absprob":
-        # abstracted condition (IR only): handled by the caller through a branching draw
-        raise Unsupported("absprob outside draw")
-    raise Unsupported(f"bad cond {c!r}")
+        a = _eval3(c[1], env)
+        if a is True:
+            return True
+        b = _eval3(c[2], env)
+        if b is True:
+            return True
+        if isinstance(a, Unsupported):
+            return a
+        return b
+    return Unsupported(f"bad cond {c!r}")
+
+
+def eval_cond(c, env):
+    r = _eval3(c, env)
+    if isinstance(r, Unsupported):
+        raise r
+    return r
 
 
 class Engine:
